@@ -103,7 +103,9 @@ FORMS = ['contract_caps_dict_open_end', 'contract_caps_dict_with_end', 'contract
          'multicommodity_caps_dict', 'plant_costs_dict', 'plant_caps_fuel_dict', 'chp_factor_share_dict',
          'dates_timestamp_vs_datetime', 'dates_numpy_datetime64', 'dates_zone_aware_vs_naive_on_cet_grid', 'take_arrays_vs_lists', 'window_timestamp_vs_datetime',
          # an optional argument omitted vs given explicitly with its documented default
-         'defaults_storage', 'defaults_contract', 'defaults_transport', 'defaults_plant', 'defaults_multicommodity']
+         'defaults_storage', 'defaults_contract', 'defaults_transport', 'defaults_plant', 'defaults_multicommodity', 'defaults_plant_ramp_freq',
+         # the forms of a rate-type parameter of an asset with its own coarser frequency (the coarse step's length scales the volume limit)
+         'coarse_contract_caps_column_vs_scalar', 'coarse_contract_caps_dict_vs_scalar']      # (plants reject an own frequency)
 
 
 def build_forms(D, which):
@@ -111,7 +113,7 @@ def build_forms(D, which):
     eao = lift.import_eao()
     T = 4
     tz = 'CET' if which == 'dates_zone_aware_vs_naive_on_cet_grid' else None
-    tg = shapes.grid(T, 'h', 'h', tz)
+    tg = shapes.grid(T, 'h', 'h', tz) if which != 'defaults_plant_ramp_freq' else shapes.grid(T, '30min', 'h')
     tp = [pd.Timestamp(t) for t in tg.timepoints]
     naive = [t.tz_localize(None) for t in tp]
     end_ = pd.Timestamp(shapes._grid_end(tg)).tz_localize(None)
@@ -234,6 +236,24 @@ def build_forms(D, which):
                                                               min_downtime=0, time_already_off=0, last_dispatch=0, start_ramp_lower_bounds=None, start_ramp_upper_bounds=None,
                                                               shutdown_ramp_lower_bounds=None, shutdown_ramp_upper_bounds=None, ramp_freq=None, start_fuel=0., fuel_efficiency=1.,
                                                               consumption_if_on=0.) if f else {})))
+    elif which == 'defaults_plant_ramp_freq':
+        # ramp profiles are given per main time unit unless ramp_freq says otherwise: omitted = main time unit (here 'h' on a 30-minute grid)
+        base_ = dict(name='a', nodes=[nA], price='p', min_cap=1., max_cap=3., start_costs=v('sc', lo=0), ramp=v('ramp', lo_strict=0),
+                     start_ramp_lower_bounds=[1.0, 2.0], start_ramp_upper_bounds=[1.5, 2.5], shutdown_ramp_lower_bounds=[1.0], shutdown_ramp_upper_bounds=[2.0])
+        mk = lambda f: eao.assets.Plant(**dict(base_, **(dict(ramp_freq='h') if f else {})))
+    elif which in ('coarse_contract_caps_column_vs_scalar', 'coarse_contract_caps_dict_vs_scalar'):
+        lo_, hi_ = v('lo', hi=0), v('hi', lo=0)
+        if which.endswith('column_vs_scalar'):
+            mk = lambda f: eao.assets.SimpleContract(name='a', nodes=nA, price='p', freq='2h', extra_costs=v('ec', lo=0),
+                                                     min_cap=col('lo', [lo_] * T) if f else lo_, max_cap=col('hi', [hi_] * T) if f else hi_)
+        else:
+            mk = lambda f: eao.assets.SimpleContract(name='a', nodes=nA, price='p', freq='2h', extra_costs=v('ec', lo=0),
+                                                     min_cap={'start': [dtm(naive[0])], 'values': [lo_]} if f else lo_,
+                                                     max_cap={'start': [dtm(naive[0])], 'end': [dtm(end_)], 'values': [hi_]} if f else hi_)
+    elif which == 'coarse_plant_costs_column_vs_scalar':
+        rc_, cio_ = v('rc', lo=0), v('cio', lo=0)
+        mk = lambda f: eao.assets.Plant(name='a', nodes=[nA, nG], price='p', freq='2h', min_cap=0., max_cap=3., fuel_efficiency=0.5,
+                                        running_costs=col('rc', [rc_] * T) if f else rc_, consumption_if_on=col('cio', [cio_] * T) if f else cio_)
     elif which == 'defaults_multicommodity':
         base_ = dict(name='a', nodes=[nA, nB], price='p', min_cap=v('lo', hi=0), max_cap=v('hi', lo=0), factors_commodities=[1.0, 0.5])
         mk = lambda f: eao.assets.MultiCommodityContract(**dict(base_, **(dict(start=None, end=None, wacc=0., extra_costs=0., min_take=None, max_take=None, freq=None, profile=None,
